@@ -33,11 +33,30 @@ theorem AclEqv_typed (y : List ALine) : AclEqv (y.map typed) y := by
   rw [List.map_map]
   exact BlockEqG_of_eq (List.map_congr_left fun l _ => rfl)
 
+/-- Exactly equal (under the numeric encoding of the two lists): same texts, same texts without `log`,
+same actions, line by line. -/
+def ExactEq (x y : List ALine) : Prop := ∃ al, x.map (encP al y) = y.map (encP al y)
+
+theorem ExactEq_typed (y : List ALine) : ExactEq (y.map typed) y := by
+  refine ⟨[], ?_⟩
+  rw [List.map_map]
+  exact List.map_congr_left fun l _ => rfl
+
+theorem ExactEq_nil : ExactEq [] [] := ⟨[], rfl⟩
+
 /-- The pairs of access lists the engine can compare: bound in the same direction to interfaces of
 the same name. -/
 def Cmp (e : Env) (aN bN : Name) : Prop :=
   ∃ ai ∈ e.a.intfs, ∃ bi ∈ e.b.intfs, ai.name = bi.name ∧
     ∃ ba ∈ ai.binds, ∃ bb ∈ bi.binds, ba.dir = bb.dir ∧ ba.acl = aN ∧ bb.acl = bN
+
+/-- Some pair the engine may compare for target ACL `bN` has a plan with a suppressed move. -/
+def SupprT (e : Env) (bN : Name) : Prop :=
+  ∃ aN, Cmp e aN bN ∧ noSupprPair (e.a.lines aN) (e.b.lines bN) (lookupD e.sc.acl (aN, bN)) = false
+
+/-- What the run establishes for a `ready` target ACL: block-equivalent modulo `log`, and exactly equal
+unless a move was suppressed. -/
+def AclRel (e : Env) (bN : Name) (x y : List ALine) : Prop := AclEqv x y ∧ (ExactEq x y ∨ SupprT e bN)
 
 /-- Static hypotheses on the pairs of access lists (decidable; evaluated by the driver). -/
 structure WFE (e : Env) : Prop where
@@ -65,7 +84,7 @@ structure Sem (e : Env) (P : List Name) (d0 : Dev) (st : St) (d : Dev) (σ : Str
   aHas : ∀ n, e.a.hasAcl n = true → hasAcl d n = true
   aKeep : ∀ n, e.a.hasAcl n = true → n ∉ st.aNeeded → (entriesOf d n).map (·.2) = e.a.lines n
   ready : ∀ bN ∈ st.aReady, e.b.hasAcl bN = true ∧ hasAcl d (st.nameOf bN) = true ∧
-    AclEqv (linesOf d (st.nameOf bN)) (e.b.lines bN) ∧
+    AclRel e bN (linesOf d (st.nameOf bN)) (e.b.lines bN) ∧
     (st.nameOf bN ∈ st.aNeeded ∨ e.a.hasAcl (st.nameOf bN) = false)
   fresh : ∀ bN, e.b.hasAcl bN = true → bN ∉ st.aReady →
     st.nameOf bN = genName bN (e.a.acls.map (·.1)) ∧ hasAcl d (st.nameOf bN) = false
@@ -129,7 +148,7 @@ theorem sem_transfer {e : Env} (hwf : WFE e) {P : List Name} {d0 : Dev} {st : St
       · refine ⟨hb, by rw [hasAcl_addAcl]; simp, ?_, Or.inr ?_⟩
         · have : linesOf (addAcl d (st.nameOf x) es) (st.nameOf x) = (e.b.lines x).map typed := by
             simp only [linesOf, entriesOf_addAcl d _ _ es hgd, beq_self_eq_true, ↓reduceIte]; exact hes
-          rw [this]; exact AclEqv_typed _
+          rw [this]; exact ⟨AclEqv_typed _, Or.inl (ExactEq_typed _)⟩
         · rw [hg]; exact genName_not_hasAcl e.a x
       · obtain ⟨h1, h2, h3, h4⟩ := h.ready x hx
         have hne : (st.nameOf x == st.nameOf bN) = false := by
@@ -166,14 +185,17 @@ theorem run_edit {e : Env} (hwf : WFE e) (aN bN : Name) (ha : e.a.hasAcl aN = tr
     (hcmp : Cmp e aN bN) (d : Dev) (hhas : hasAcl d aN = true) (hmode : d.mode = none) (hnd : (aclNames d).Nodup)
     (hlines : (entriesOf d aN).map (·.2) = e.a.lines aN) :
     ∃ esF, evsRun d (expand (.edit aN (e.a.lines aN) (e.b.lines bN) (lookupD e.sc.acl (aN, bN)))) =
-        some (putAcl d aN esF) ∧ AclEqv (esF.map (·.2)) (e.b.lines bN) := by
+        some (putAcl d aN esF) ∧ AclRel e bN (esF.map (·.2)) (e.b.lines bN) := by
   have hp := hwf.pairs aN bN ha hb hcmp
   simp only [pairOK, Bool.or_eq_true] at hp
   rcases hp with hp | hp
-  · obtain ⟨esF, h1, h2⟩ := edit_incremental aN _ _ _ hp d hhas hmode hnd hlines
-    exact ⟨esF, h1, ⟨_, h2⟩⟩
+  · obtain ⟨esF, h1, h2, h3⟩ := edit_incremental_x aN _ _ _ hp d hhas hmode hnd hlines
+    refine ⟨esF, h1, ⟨_, h2⟩, ?_⟩
+    by_cases hns : noSupprPair (e.a.lines aN) (e.b.lines bN) (lookupD e.sc.acl (aN, bN)) = true
+    · exact Or.inl ⟨_, h3 hns⟩
+    · exact Or.inr ⟨aN, hcmp, by simpa using hns⟩
   · obtain ⟨esF, h1, h2⟩ := edit_replace aN _ _ _ hp d hhas hmode hnd hlines
-    exact ⟨esF, h1, by rw [h2]; exact AclEqv_typed _⟩
+    exact ⟨esF, h1, by rw [h2]; exact ⟨AclEqv_typed _, Or.inl (ExactEq_typed _)⟩⟩
 
 /-- `diffCmds(aRef, bRef)` for two ACL objects: afterwards the target ACL is `ready` and the
 returned name is its current name. -/
@@ -215,14 +237,14 @@ theorem sem_diffAcl {e : Env} (hwf : WFE e) {P : List Name} {d0 : Dev} {st : St}
       have hhas := h.aHas aN ha
       -- the state after `diffLines`
       obtain ⟨d', hrun', hd'⟩ : ∃ d', actsRun d0 (diffLines e (adoptSt st aN bN) aN bN).acts = some d' ∧
-          ∃ esF, d' = putAcl d aN esF ∧ AclEqv (esF.map (·.2)) (e.b.lines bN) := by
+          ∃ esF, d' = putAcl d aN esF ∧ AclRel e bN (esF.map (·.2)) (e.b.lines bN) := by
         unfold diffLines
         simp only
         by_cases hemp : ((e.a.lines aN).isEmpty && (e.b.lines bN).isEmpty) = true
         · simp only [hemp, ↓reduceIte]
           refine ⟨d, h.run, entriesOf d aN, (putAcl_self d aN h.mode h.namesNd).symm, ?_⟩
           simp only [Bool.and_eq_true, List.isEmpty_iff] at hemp
-          rw [hkeep, hemp.1, hemp.2]; exact AclEqv_nil
+          rw [hkeep, hemp.1, hemp.2]; exact ⟨AclEqv_nil, Or.inl ExactEq_nil⟩
         · simp only [hemp, Bool.false_eq_true, ↓reduceIte]
           obtain ⟨esF, h1, h2⟩ := run_edit hwf aN bN ha hb hcmp d hhas h.mode h.namesNd hkeep
           refine ⟨putAcl d aN esF, ?_, esF, rfl, h2⟩
